@@ -1,6 +1,7 @@
 package rules
 
 import (
+	"go/token"
 	"regexp/syntax"
 	"strings"
 
@@ -79,13 +80,37 @@ func runC26(c *an.Ctx) {
 	var comps []comp
 	for _, in := range an.CallsTo(fm, "regexp.Compile", "regexp.MustCompile") {
 		call := in.(*ssa.Call)
-		sp, ok := call.Call.Args[0].(*ssa.Call)
-		if !ok || !an.IsCallTo(sp, "fmt.Sprintf") {
-			c.Undecided("R1", "filterMembers:compile-arg", in, "pattern compiled from something other than a constant-format Sprintf: "+an.Path(call.Call.Args[0]))
+		var f string
+		var okF bool
+		var args []ssa.Value
+		if sp, ok := call.Call.Args[0].(*ssa.Call); ok && an.IsCallTo(sp, "fmt.Sprintf") {
+			f, okF = an.ConstString(sp.Call.Args[0])
+			args = an.VarArgs(&sp.Call)
+		} else if bo, isB := call.Call.Args[0].(*ssa.BinOp); isB && bo.Op == token.ADD {
+			// the same wrapping written as a concatenation: constant + pattern + constant
+			var parts []ssa.Value
+			var flat func(v ssa.Value)
+			flat = func(v ssa.Value) {
+				if bb, isBB := v.(*ssa.BinOp); isBB && bb.Op == token.ADD {
+					flat(bb.X)
+					flat(bb.Y)
+					return
+				}
+				parts = append(parts, v)
+			}
+			flat(bo)
+			if len(parts) == 3 {
+				pre, ok0 := an.ConstString(parts[0])
+				post, ok2 := an.ConstString(parts[2])
+				if ok0 && ok2 && !strings.Contains(pre+post, "%") {
+					f, okF, args = pre+"%s"+post, true, []ssa.Value{parts[1]}
+				}
+			}
+		}
+		if !okF && len(args) == 0 {
+			c.Undecided("R1", "filterMembers:compile-arg", in, "pattern compiled from something other than a constant-format Sprintf or constant+pattern+constant: "+an.Path(call.Call.Args[0]))
 			continue
 		}
-		f, okF := an.ConstString(sp.Call.Args[0])
-		args := an.VarArgs(&sp.Call)
 		if !okF || len(args) != 1 {
 			c.Undecided("R1", "filterMembers:compile-format", in, "non-constant format or not exactly one argument")
 			continue
@@ -197,7 +222,28 @@ func runC26(c *an.Ctx) {
 				what = "tags"
 			}
 		}
-		want := map[string]string{"tags": elem + ".Tags[next(range($2))#1]", "status": "(MemberStatus).String(" + elem + ".Status)", "name": elem + ".Name"}[what]
+		wantTags := elem + ".Tags[next(range($2))#1]"
+		if ex, ok := recv.(*ssa.Extract); ok && ex.Index == 2 && what == "" {
+			// for tag, re := range tagsRe: the compiled expressions are walked directly; the map has one entry
+			// per requested tag (its only update stores the tags compile result under the tag name)
+			if nx, isNx := ex.Tuple.(*ssa.Next); isNx {
+				if rg, isRg := nx.Iter.(*ssa.Range); isRg {
+					okMap := false
+					an.Instrs(fm, func(x ssa.Instruction) {
+						if mu, ok := x.(*ssa.MapUpdate); ok && mu.Map == rg.X {
+							if cx, ok := mu.Value.(*ssa.Extract); ok && byWhat["tags"] != nil && cx.Tuple == ssa.Value(byWhat["tags"]) && cx.Index == 0 && an.Path(mu.Key) == "next(range($2))#1" {
+								okMap = true
+							}
+						}
+					})
+					if okMap {
+						what = "tags"
+						wantTags = elem + ".Tags[" + an.Path(nx) + "#1]"
+					}
+				}
+			}
+		}
+		want := map[string]string{"tags": wantTags, "status": "(MemberStatus).String(" + elem + ".Status)", "name": elem + ".Name"}[what]
 		seen[what] = true
 		c.Add(what != "" && subj == want, "R2", "filterMembers:subject:"+what, in, "the "+what+" expression is matched against "+want+" (got "+subj+")", "receiver provenance + subject path")
 		if what == "" {
